@@ -435,9 +435,10 @@ def alist_all(fn, L):
     return all(bool(fn(e)) for e in L)
 
 
-def alist_parts(L):
-    """symbolic: the number of opaque pieces L is the concatenation of; native: not observable (0)"""
-    return 0
+def alist_parts_is(L, n):
+    """symbolic: L is the concatenation of exactly n opaque pieces (results of modular calls), i.e. no piece was
+    dropped or duplicated; native: the pieces of a real list are not observable (True)"""
+    return True
 
 
 def alist_same(a, b):
